@@ -69,14 +69,19 @@ def route_py(segs):
 class Device(object):
     """A freshly configured simulator: tags per `cfg` (the spec's configuration record)."""
 
-    def __init__(self, cfg, attribute_class=Attribute, pers=None, defer=False, via_main=False):
+    def __init__(self, cfg, attribute_class=Attribute, pers=None, defer=False, via_main=False, budget_via="class"):
         """defer=True: the CIP objects and tags are NOT set up yet -- the first request does it (logix.process(..., tags=self.tags)),
         as in a freshly started simulator"""
         self.cfg = cfg
         device.lookup_reset()
         logix.setup_reset()
         ucmm_mod.UCMM.sessions.clear()
-        logix.Logix.MAX_BYTES = cfg["budget"]
+        # the reply size budget is a class attribute of the Message Router: set on the Logix class itself, or -- the other way a
+        # user configures it -- on a derived class handed to logix.setup as message_router_class
+        logix.Logix.MAX_BYTES = cfg["budget"] if budget_via == "class" else 488
+        self.router_class = None
+        if budget_via == "subclass":
+            self.router_class = type("Router", (logix.Logix,), {"MAX_BYTES": cfg["budget"]})
         device.Connection_Manager.forwards.clear() if hasattr(device.Connection_Manager, "forwards") else None
         self.attrs = []
         tags = cpppo.dotdict()
@@ -143,6 +148,8 @@ class Device(object):
         self.cm = None
         if defer:
             return
+        if self.router_class is not None:
+            kw["message_router_class"] = self.router_class
         self.ucmm = logix.setup(tags=tags, **kw)
         self.names = [bytes(bytearray(tg["name"])).decode("iso-8859-1") for tg in cfg["tags"]]
         got = [tuple(device.resolve_tag(n) or ()) for n in self.names]
